@@ -10,7 +10,7 @@ from ..engine import Verdict
 
 ID = "C07"
 RULE = (
-    "Hypothesis draws a relation family and a complete run card: (a) FFNS/FFN0 any NfFF: F_total = F_light + "
+    "Hypothesis draws a relation family and a complete run card (structure functions, one case in four a cross-section kind): (a) FFNS/FFN0 any NfFF: F_total = F_light + "
     "sum of F_h over the massive quarks h>NfFF (for NfFF=3 literally light+charm+bottom+top), all five "
     "observables requested in one run; (b) ZM-VFNS: total = light; (c) FONLL-FFNS/FFN0: run with "
     "FONLLParts=full = massless run + massive run; (d) EM/NC: sum of the six NCPositivityCharge runs = "
@@ -25,7 +25,7 @@ ASSUMPTIONS = [
 ]
 BUDGET = {"quick": {"examples": 1600, "wall": 400}, "thorough": {"examples": 45000, "wall": 2400}}
 MANDATORY = {
-    t: ["family:a", "family:b", "family:c", "family:d", "nontrivial:a", "nontrivial:b", "nontrivial:c", "nontrivial:d", "sv:on"]
+    t: ["family:a", "family:b", "family:c", "family:d", "nontrivial:a", "nontrivial:b", "nontrivial:c", "nontrivial:d", "sv:on", "xs"]
     for t in ("quick", "thorough")
 }
 SHRINK = {"quick": False, "thorough": True}
@@ -38,7 +38,8 @@ CHARGES = ["up", "down", "strange", "charm", "bottom", "top"]
 @st.composite
 def cases(draw, tier="quick"):
     fam = draw(st.sampled_from(["a", "a", "b", "c", "c", "d", "d"]))
-    common = dict(max_pto=3, sv=True, tmcs=(0, 0, 0, 0, 0, 1), targets=("proton", "ZA"), grid_kw={"nmax": 9},
+    # structure functions and (one case in four) the cross sections built on them: both are linear in the kernels
+    common = dict(kinds=cards.SFS * 3 + configs.XS_KINDS, max_pto=3, sv=True, tmcs=(0, 0, 0, 0, 0, 1), targets=("proton", "ZA"), grid_kw={"nmax": 9},
                   x_classes=["interior", "node", "near_node", "large"])
     if fam == "a":
         cfg = draw(configs.config(schemes=("FFNS", "FFN0"), heavynesses=("total",), **common))
@@ -94,6 +95,8 @@ def check_case(case):
     sv_on = th["RenScaleVar"] or th["FactScaleVar"]
     v.label(f"family:{fam}", f"pto:{meta['pto']}", f"scheme:{meta['scheme']}", f"process:{meta['process']}",
             "sv:on" if sv_on else "sv:off", "tmc:on" if th["TMC"] else "tmc:off")
+    if kind in configs.XS_KINDS:
+        v.label("xs")
     nzmax = 0
     if fam in ("a", "b"):
         o = copy.deepcopy(ob)
